@@ -427,7 +427,29 @@ pub fn run(a: &Args) -> Batch {
             _ => continue,
         };
         let before = element_ids(&base);
-        for (bname, block) in EXTRA_BLOCKS.iter() {
+        // the unrelated definitions, and the same under the name of an existing definition of another kind
+        // (name -> id tables must not mix kinds)
+        let mut extras: Vec<(String, String)> = EXTRA_BLOCKS.iter().map(|(n, b)| (n.to_string(), b.to_string())).collect();
+        if let Ok(blocks) = hulc::bdl::build_blocks(&p.src.bdl()) {
+            let first = |ty: &str| blocks.iter().find(|b| format!("{:?}", b.btype) == ty).map(|b| b.name.clone());
+            let renamed = |which: usize, old: &str, new: &str| EXTRA_BLOCKS[which].1.replace(&format!("\"{}\"", old), &format!("\"{}\"", new));
+            for (label, which, old, ty) in [
+                ("day-schedule named as a week schedule", 1usize, "ZZVD", "WeekSchedulePd"),
+                ("day-schedule named as a year schedule", 1, "ZZVD", "SchedulePd"),
+                ("glass named as a material", 3, "ZZ Vidrio", "Material"),
+                ("frame named as a glass", 4, "ZZ Marco", "GlassType"),
+                ("material named as a layers definition", 0, "ZZ VERIF MAT", "Layers"),
+                ("material named as a frame", 0, "ZZ VERIF MAT", "NameFrame"),
+                ("glass named as a gap", 3, "ZZ Vidrio", "Gap"),
+            ] {
+                if let Some(n) = first(ty) {
+                    if !n.contains('"') {
+                        extras.push((label.to_string(), renamed(which, old, &n)));
+                    }
+                }
+            }
+        }
+        for (bname, block) in extras.iter() {
             let src2 = append_block(&p.src, block);
             let after = match hproj::convert(&src2) {
                 Outcome::Ok(m) => element_ids(&m),
